@@ -606,20 +606,37 @@ def _run_info(case, out):
 def _run_reseed(case, out):
     from pydsol.core.streams import MersenneTwister, StreamSeedUpdater, SimpleStreamUpdater
     stream = MersenneTwister(case["orig"])
-    upd = StreamSeedUpdater({"s": list(case["table"])}) if case["updater"] == "seeded" else SimpleStreamUpdater()
+    other = MersenneTwister(case["orig"] + 1)
+    # (a second stream with its own, different seed list is served by the same updater)
+    table2 = [x + 1000 for x in reversed(case["table"])]
+    upd = StreamSeedUpdater({"s": list(case["table"]), "t": table2}) if case["updater"] == "seeded" \
+        else SimpleStreamUpdater()
     ties = 0
     drawn = 0
-    for r, n in case["steps"]:
+    for si, (r, n) in enumerate(case["steps"]):
         if case["updater"] == "seeded":
             r = r % len(case["table"])
         before = stream.seed()
         used = n_prev = drawn
         try:
-            upd.update_seed("s", stream, r)
+            if si % 2:
+                upd.update_seed("s", stream, r)
+            else:
+                upd.update_seeds({"t": other, "s": stream}, r)        # the bulk entry point
+                if case["updater"] == "seeded" and other.seed() != table2[r]:
+                    out.fail("set_seed-fresh", {"r": r, "stream": "t", "seed": other.seed(), "want": table2[r]})
+                    return
+                if [other.next_float().hex() for _ in range(2)] != \
+                        [f_.next_float().hex() for f_ in [MersenneTwister(other.seed())] for _ in range(2)]:
+                    out.fail("reseed-with-unchanged-seed", {"r": r, "stream": "t"})
+                    return
         except Exception as e:
             out.fail("raises:update_seed:" + type(e).__name__, {"r": r, "error": repr(e)})
             return
         sd = stream.seed()
+        if case["updater"] == "seeded" and sd != case["table"][r]:
+            out.fail("set_seed-fresh", {"r": r, "stream": "s", "seed": sd, "want": case["table"][r]})
+            return
         if sd == before and used:
             ties += 1
         ref = MersenneTwister(sd)
